@@ -30,7 +30,8 @@ def _prepare(repo):
     os.makedirs(os.path.join(dst, '.cargo'), exist_ok=True)
     toml = open(os.path.join(VERIF, 'kani', 'Cargo.toml')).read().replace('path = "/repo"', 'path = "%s"' % repo)
     _write_if_changed(os.path.join(dst, 'Cargo.toml'), toml)
-    for rel in ('src/lib.rs', '.cargo/config.toml'):
+    rels = ['.cargo/config.toml'] + ['src/' + f for f in sorted(os.listdir(os.path.join(VERIF, 'kani', 'src'))) if f.endswith('.rs')]
+    for rel in rels:
         _write_if_changed(os.path.join(dst, rel), open(os.path.join(VERIF, 'kani', rel)).read())
     lock = os.path.join(repo, 'Cargo.lock')
     if os.path.exists(lock):
